@@ -28,7 +28,7 @@ MAX_NODES = 3000
 @st.composite
 def direct_cases(draw, tier):
     maxd = 4
-    dom = draw(gen.domains(max_d=maxd, extreme=True, bigint=True))
+    dom, alias = draw(gen.aliased(draw(gen.domains(max_d=maxd, extreme=True, bigint=True)), prob_den=5))
     d = len(dom)
     cls = draw(st.sampled_from(sorted(PARTITIONS)))
     pspec = {"cls": cls}
@@ -43,7 +43,10 @@ def direct_cases(draw, tier):
             ops.append(["expand", draw(st.integers(0, 200))])
     rng = draw(gen.rngs(script_prob=0.85, max_len=60))
     probes = [[draw(st.floats(0, 1)) for _ in range(d)] for _ in range(6)]
-    return {"partition": pspec, "domain": dom, "ops": ops, "rng": rng, "probes": probes}
+    case = {"partition": pspec, "domain": dom, "ops": ops, "rng": rng, "probes": probes}
+    if alias:
+        case["alias_axes"] = True  # the box written as [[lo, hi]] * d: one list object for every axis
+    return case
 
 
 def _bind(pspec, on_split):
@@ -66,7 +69,7 @@ def _bind(pspec, on_split):
 
 def check_direct(case):
     pspec = case["partition"]
-    dom = copy.deepcopy(case["domain"])
+    dom = gen.materialise_domain(case)
     d = len(dom)
     nsplit = [0]
     bad = []
@@ -79,6 +82,8 @@ def check_direct(case):
                 bad.append(r)
 
     classes = ["part:" + pspec["cls"], "d:%d" % d, "rng:" + case["rng"]["mode"]]
+    if case.get("alias_axes"):
+        classes.append("aliased-axes")
     out_of_order = False
     with rng_context(case["rng"]) as script:
         part = _bind(pspec, on_split)(dom)
@@ -123,6 +128,76 @@ def check_direct(case):
     nonunit = any(list(iv) not in ([0, 1], [0.0, 1.0]) for iv in case["domain"])
     nt = nsplit[0] >= 1 and (d >= 2 or nonunit or endpoint or out_of_order)
     return Outcome(nontrivial=nt, classes=classes, rounds=nsplit[0])
+
+
+# ------------------------------------------------------------------ container independence
+
+
+@st.composite
+def ndarray_cases(draw, tier):
+    """A `direct` case whose box is handed to the partition as a NumPy array instead of the documented list of
+    lists: a 2-D float array, or a list of 1-D float arrays ("rows")."""
+    c = draw(direct_cases(tier))
+    c.pop("alias_axes", None)
+    c["ndarray"] = draw(st.sampled_from(["2d", "rows"]))
+    return c
+
+
+def _grow(case, dom):
+    """Apply the case's expansion order to a partition built on ``dom``; returns every cell's box as floats."""
+    pspec = case["partition"]
+    d = len(case["domain"])
+    with rng_context(case["rng"]):
+        part = _bind(pspec, lambda parent, children: None)(dom)
+        for op in case["ops"]:
+            nnodes = sum(len(l) for l in part.get_node_list())
+            ar = pspec.get("K", 2 ** d if pspec["cls"] == "DimensionBinaryPartition" else 2)
+            if op[0] == "deepen":
+                if len(part.get_node_list()[part.get_depth()]) * ar + nnodes > 600:
+                    continue
+                part.deepen()
+            else:
+                if nnodes + ar > 600:
+                    continue
+                lv = leaves(part.get_root())
+                leaf = lv[op[1] % len(lv)]
+                part.make_children(leaf, newlayer=leaf.get_depth() >= part.get_depth())
+        boxes = []
+        for layer in part.get_node_list():
+            for node in layer:
+                boxes.append([[float(a), float(b)] for a, b in node.get_domain()] + [[float(v) for v in node.get_cpoint()]])
+    return boxes
+
+
+def check_ndarray(case):
+    """Differential oracle: the tree grown from an array-typed box has, cell for cell, the boxes and centres of
+    the tree grown from the same box written as a list of lists (which the `direct` sub-check judges against the
+    tiling predicate). The unchanged library treats both containers alike. An exception on the array-typed box
+    is inconclusive - the documented container is the list of lists - never a violation."""
+    import numpy as np
+
+    classes = ["part:" + case["partition"]["cls"], "ndarray:" + case["ndarray"], "d:%d" % len(case["domain"])]
+    if any(float(b) != b or (b != 0 and abs(b) < 1e-300) for ax in case["domain"] for b in ax):
+        return Outcome(classes=classes + ["ndarray:skipped-nonrepresentable"])
+    try:
+        ref = _grow(case, copy.deepcopy(case["domain"]))
+    except Exception as e:  # noqa: BLE001 - judged by the `direct` sub-check
+        return Outcome(aborted="exception:" + type(e).__name__, classes=classes)
+    if case["ndarray"] == "2d":
+        dom = np.array(case["domain"], dtype=float)
+    else:
+        dom = [np.array(ax, dtype=float) for ax in case["domain"]]
+    try:
+        got = _grow(case, dom)
+    except Exception as e:  # noqa: BLE001
+        return Outcome(aborted="ndarray-rejected:" + type(e).__name__, classes=classes)
+    if got != ref:
+        k = next((i for i, (a, b) in enumerate(zip(ref, got)) if a != b), min(len(ref), len(got)))
+        return Outcome(violation={"clause": "container-dependence", "round": k,
+                                  "msg": "cell #%d of the tree grown from the %s-typed box is %r, from the list of lists %r" % (
+                                      k, case["ndarray"], got[k][:-1] if k < len(got) else None, ref[k][:-1] if k < len(ref) else None)},
+                       classes=classes)
+    return Outcome(nontrivial=len(ref) > 1, classes=classes, rounds=len(ref))
 
 
 def check_algo(case):
@@ -173,6 +248,8 @@ D12_CLAUSES = ("containment", "tiling", "centre", "leaves-tile-root", "child-box
 
 
 def check_case(case):
+    if "ndarray" in case:
+        return check_ndarray(case)
     out = check_direct(case) if "ops" in case else check_algo(case)
     if out.violation and out.violation["clause"] in D12_CLAUSES and nonrepresentable_int_bound(case):
         if any(f["id"] == "D12" and f.get("status") == "open" for f in engine.load_known()):
@@ -215,7 +292,12 @@ def simplify(case):
 
 def run_shard(ctx):
     ctx.drive("direct", direct_cases(ctx.tier), check_case, ctx.budget(24000, 200000))
+    ctx.drive("ndarray", ndarray_cases(ctx.tier), check_case, ctx.budget(3200, 30000))
+    ctx.drive_fuzz("direct", 48000)  # thorough tier: coverage-guided campaign over the same generator and oracle
     names = ["T_HOO", "HCT", "VHCT", "DOO", "SOO", "StoSOO", "SequOOL", "StroquOOL", "Zooming", "VROOM", "PCT"]
     ctx.drive("algos", gen.run_case(names=names, T_max=120, extreme=True, poo_ok_only=True, gpo_ok_only=True,
                                     binary_children_only=False),
               check_case, ctx.budget(2400, 30000))
+
+
+FUZZ = {"direct": (direct_cases, check_case)}
